@@ -128,6 +128,15 @@ class GPTRank:
                 blob = pickle.dumps(sd)
                 if 'state' in self.observe:
                     rec['saved'] = pickle.loads(blob)
+                if 'local_factors' in self.observe:
+                    rec['local_before'] = {n: {'A': (None if l.a_factor is None else l.a_factor.detach().clone()),
+                                               'G': (None if l.g_factor is None else l.g_factor.detach().clone())}
+                                           for n, l in self.pre._layers.values()}
+                if self.ckpt_dir is not None:
+                    # a checkpoint written to disk is read back by a later job: every writer has finished by then
+                    dist.barrier()
+                    if 'state' in self.observe and self.rank == 0:
+                        rec['files'] = {fn: torch.load(os.path.join(self.ckpt_dir, fn)) for fn in sorted(os.listdir(self.ckpt_dir))}
                 new_model = self._build()
                 with torch.no_grad():
                     for (n1, p1), (n2, p2) in zip(self.model.named_parameters(), new_model.named_parameters()):
@@ -137,6 +146,7 @@ class GPTRank:
                     warnings.simplefilter('ignore')
                     new_pre.load_state_dict(pickle.loads(blob), compute_inverses=op.get('compute_inverses', True))
                 self.model, self.pre = new_model, new_pre
+                rec['restored'] = {'steps': new_pre.steps, **{k: getattr(new_pre, k) for k in HP_KEYS if not callable(gpt_kwargs(c).get(k))}}
                 if 'local_factors' in self.observe:
                     a = self.pre._assignment
                     rec['local'] = {n: {'A': (None if l.a_factor is None else l.a_factor.detach().clone()),
